@@ -36,6 +36,11 @@ class PathAbort(Control):
     """Current path is infeasible / excluded by an assumption."""
 
 
+class OutOfBound(PathAbort):
+    """The path leaves a stated bound of the encoding (e.g. non-ASCII text in the ASCII string model): it is cut,
+    counted and reported as outside the claim — neither a pass nor an inconclusive result."""
+
+
 class Unsupported(Control):
     """The path needs something the encoding does not model: inconclusive, never 'passed'."""
 
